@@ -410,6 +410,7 @@ func (m *Manager) AllocateNAT(privateIP net.IP) (*Allocation, error) {
 		return existing, nil
 	}
 	m.allocationMu.RUnlock()
+	verifGate(m, "alloc.afterCheck")
 
 	// Find available pool entry
 	m.poolMu.Lock()
@@ -510,6 +511,7 @@ func (m *Manager) DeallocateNAT(privateIP net.IP) error {
 	}
 	delete(m.allocations, privKey)
 	m.allocationMu.Unlock()
+	verifGate(m, "dealloc.afterDelete")
 
 	// Remove from eBPF map
 	if m.subscriberNAT != nil {
@@ -524,6 +526,7 @@ func (m *Manager) DeallocateNAT(privateIP net.IP) error {
 		m.pool[allocation.PoolIndex].Subscribers--
 	}
 	m.poolMu.Unlock()
+	verifGate(m, "dealloc.afterCount")
 
 	// Log deallocation event
 	if m.natLogger != nil {
